@@ -328,7 +328,7 @@ Definition entry_inv (l : layout) (en : entry) : Prop :=
 
 Definition Inv (st : state) : Prop :=
   layout_ok (st_layout st) /\
-  forall name en, lookup name (st_entries st) = Some en -> entry_inv (st_layout st) en.
+  forall name en, In (name, en) (st_entries st) -> entry_inv (st_layout st) en.
 
 Lemma sel_split : forall q m l,
   Permutation (sel q l) (filter (below q m) (content l) ++ filter (above q m) (content l)).
@@ -462,6 +462,14 @@ Proof.
   - intros H. right. apply IH. exact H.
 Qed.
 
+Lemma update_In : forall name en es n e, In (n, e) (update name en es) -> In (n, e) es \/ (n = name /\ e = en).
+Proof.
+  intros name en es n e. induction es as [|[a b] r IH]; cbn [update]; [intros []|].
+  destruct (a =? name) eqn:E.
+  - apply N.eqb_eq in E. subst a. intros [H|H]; [inversion H; subst; right; auto|left; right; exact H].
+  - intros [H|H]; [left; left; exact H|]. destruct (IH H) as [H'|H']; [left; right; exact H'|right; exact H'].
+Qed.
+
 Lemma inv_setlayout : forall st l, Inv st -> good_op st (OSetLayout l) -> Inv (fst (step st (OSetLayout l))).
 Proof.
   intros st l [Hl Hen] [Hc [Hk Hz]]. cbn [classes_of] in Hc.
@@ -478,7 +486,7 @@ Proof.
     destruct (below (n_q en) (frames_mark (n_frames en)) e) eqn:B; [|reflexivity]. exfalso.
     assert (X : existsb (fun ne => late_for (snd ne) (content (st_layout st)) (content l)) (st_entries st) = true).
     { apply existsb_exists. exists (name, en). split.
-      - apply lookup_In. exact Hlk.
+      - exact Hlk.
       - cbn [snd]. unfold late_for. apply existsb_exists. exists e. split; [exact He|].
         unfold below in B. apply andb_true_iff in B. destruct B as [B1 B2]. rewrite B1, B2.
         destruct (in_events e (content (st_layout st))) eqn:E; [apply in_events_In in E; contradiction|reflexivity]. }
@@ -495,9 +503,9 @@ Proof.
   destruct (remember_frames q (st_layout st) ch) as [fs|] eqn:R; [|split; assumption].
   destruct (last_dominates fs) eqn:Ld; [|discriminate].
   cbn [fst st_layout st_entries]. split; [exact Hl|].
-  intros n en Hlk. cbn [st_entries st_layout] in Hlk |- *. rewrite (lookup_app_none _ _ _ _ Lk) in Hlk.
-  destruct (name =? n); [|apply Hen with n; exact Hlk].
-  inversion Hlk; subst en; clear Hlk. split; [split; assumption|]. cbn [n_q n_frames].
+  intros n en Hlk. cbn [st_entries st_layout] in Hlk |- *. apply in_app_or in Hlk.
+  destruct Hlk as [Hlk|[Hlk|[]]]; [apply Hen with n; exact Hlk|].
+  inversion Hlk; subst n en; clear Hlk. split; [split; assumption|]. cbn [n_q n_frames].
   unfold remember_frames in R. rewrite Hlim in R.
   destruct (valid_order (sources None q (st_layout st)) (map fst ch)) eqn:V; [|discriminate].
   inversion R; subst fs; clear R.
@@ -569,11 +577,10 @@ Proof.
   destruct (show_frames (n_q en) (n_frames en) (st_layout st) ch) as [nf|] eqn:S; [|split; assumption].
   assert (Hld : nonempty nf && negb (last_dominates nf) = false).
   { destruct (nonempty nf && negb (last_dominates nf)); [discriminate|reflexivity]. }
-  destruct (show_step _ _ _ _ Hl (Hen _ _ Lk) S Hld) as [_ [Hinv _]].
+  destruct (show_step _ _ _ _ Hl (Hen _ _ (lookup_In _ _ _ Lk)) S Hld) as [_ [Hinv _]].
   cbn [fst st_layout st_entries]. split; [exact Hl|].
-  intros n en' Hlk. cbn [st_entries st_layout] in Hlk |- *. rewrite lookup_update in Hlk. destruct (n =? name) eqn:E.
-  - rewrite Lk in Hlk. inversion Hlk; subst. exact Hinv.
-  - apply Hen with n. exact Hlk.
+  intros n en' Hlk. cbn [st_entries st_layout] in Hlk |- *. apply update_In in Hlk.
+  destruct Hlk as [Hlk|[_ Hlk]]; [apply Hen with n; exact Hlk|subst en'; exact Hinv].
 Qed.
 
 Lemma step_inv : forall st o, Inv st -> good_op st o -> Inv (fst (step st o)).
@@ -586,7 +593,7 @@ Qed.
 
 Lemma inv_init : Inv init.
 Proof.
-  split; [repeat split|intros name en H; discriminate].
+  split; [repeat split|intros name en H; destruct H].
 Qed.
 
 Lemma reach_inv : forall st, reach st -> Inv st.
@@ -722,6 +729,41 @@ Proof.
   inversion H; subst. exists en. repeat split; try reflexivity. exact Sf.
 Qed.
 
+(** the rows a SHOW returns depend only on the invariant of the state it is issued in (whether its own refresh
+    leaves a good mark matters for the NEXT SHOW) *)
+Lemma show_out_correct : forall l en ch nf,
+  layout_ok l -> entry_inv l en ->
+  show_frames (n_q en) (n_frames en) l ch = Some nf ->
+  Permutation (show_output (n_q en) (n_frames en) nf) (sel (n_q en) l).
+Proof.
+  intros l [q fs] ch nf Hl [[Htf Hlim] Hp] Hs. cbn [n_q n_frames] in *.
+  unfold show_frames in Hs. rewrite Hlim in Hs.
+  set (m := frames_mark fs) in *.
+  set (fbs := map (show_filter q m) (sources (Some (fst m)) (delta_query q m) l)) in *.
+  destruct (valid_order fbs (map fst ch)) eqn:V; [|discriminate]. inversion Hs; subst nf; clear Hs.
+  assert (Hd : Permutation (concat (frames_of fbs (map fst ch))) (filter (above q m) (content l))).
+  { eapply perm_trans; [apply valid_order_perm; exact V|]. unfold fbs, m.
+    rewrite delta_rows; [apply Permutation_refl|exact Htf|apply Hl]. }
+  unfold show_output, apply_limit, wm_enabled. rewrite Htf, Hlim.
+  eapply perm_trans; [|apply Permutation_sym; apply (sel_split q m l)].
+  apply Permutation_app; assumption.
+Qed.
+
+Theorem show_eq_query_reach : forall st name ch st' out nf m,
+  reach st ->
+  step st (OShow name ch) = (st', ObsShow out nf m) ->
+  exists en, lookup name (st_entries st) = Some en /\
+    Permutation out (sel (n_q en) (st_layout st)) /\ NoDup (map e_k out).
+Proof.
+  intros st name ch st' out nf m Hr Hs. pose proof (reach_inv _ Hr) as [Hl Hen].
+  destruct (step_show_inv _ _ _ _ _ _ _ Hs) as [en [Lk [Sf [Eo _]]]].
+  exists en. split; [exact Lk|].
+  pose proof (show_out_correct _ _ _ _ Hl (Hen _ _ (lookup_In _ _ _ Lk)) Sf) as Hp. rewrite <- Eo in Hp.
+  split; [exact Hp|].
+  eapply Permutation_NoDup; [apply Permutation_map; apply Permutation_sym; exact Hp|].
+  unfold sel. apply NoDup_map_filter. apply layout_ok_nodup_keys. exact Hl.
+Qed.
+
 Theorem show_eq_query_core : forall st name ch st' out nf m,
   reach st ->
   classes_of st (OShow name ch) = [] ->
@@ -734,7 +776,7 @@ Proof.
   exists en. split; [exact Lk|]. cbn [classes_of] in Hc. rewrite Lk, Sf in Hc.
   assert (Hld : nonempty nf && negb (last_dominates nf) = false).
   { destruct (nonempty nf && negb (last_dominates nf)); [discriminate|reflexivity]. }
-  destruct (show_step _ _ _ _ Hl (Hen _ _ Lk) Sf Hld) as [Hp _]. rewrite <- Eo in Hp.
+  destruct (show_step _ _ _ _ Hl (Hen _ _ (lookup_In _ _ _ Lk)) Sf Hld) as [Hp _]. rewrite <- Eo in Hp.
   split; [exact Hp|].
   eapply Permutation_NoDup; [apply Permutation_map; apply Permutation_sym; exact Hp|].
   unfold sel. apply NoDup_map_filter. apply layout_ok_nodup_keys. exact Hl.
@@ -748,7 +790,7 @@ Proof.
   destruct (step st (OShow name ch)) as [st' ob] eqn:Hs. cbn [snd].
   destruct ob as [| | |out nf m| |]; try exact I.
   destruct (show_eq_query_core _ _ _ _ _ _ _ Hr (proj1 Hg) Hs) as [en [Lk [Hp _]]]. rewrite Lk.
-  pose proof (reach_inv _ Hr) as [Hl Hen]. apply perm_is_answer; [exact Hl|apply (Hen _ _ Lk)|exact Hp].
+  pose proof (reach_inv _ Hr) as [Hl Hen]. apply perm_is_answer; [exact Hl|apply (Hen _ _ (lookup_In _ _ _ Lk))|exact Hp].
 Qed.
 
 (** a second SHOW with no new data in between returns the same rows and appends nothing *)
@@ -771,7 +813,7 @@ Proof.
   assert (Een1 : en1 = mkEntry (n_q en) (n_frames en ++ nf1)).
   { rewrite Est1 in Lk1. cbn [st_entries] in Lk1. rewrite lookup_update, N.eqb_refl, Lk in Lk1. inversion Lk1. reflexivity. }
   assert (Hlay : st_layout st1 = st_layout st) by (rewrite Est1; reflexivity).
-  pose proof (reach_inv _ Hr1) as [Hl1 Hen1]. specialize (Hen1 _ _ Lk1).
+  pose proof (reach_inv _ Hr1) as [Hl1 Hen1]. specialize (Hen1 _ _ (lookup_In _ _ _ Lk1)).
   cbn [classes_of] in Hc2. rewrite Lk1, Sf2 in Hc2.
   assert (Hld : nonempty nf2 && negb (last_dominates nf2) = false).
   { destruct (nonempty nf2 && negb (last_dominates nf2)); [discriminate|reflexivity]. }
@@ -784,12 +826,12 @@ Proof.
     { apply Permutation_length in Hsp, Hst, Hd. rewrite app_length in Hsp.
       assert (X : length (concat (n_frames en ++ nf1)) = length (sel (n_q en) (st_layout st1))).
       { rewrite Hlay. rewrite concat_app. rewrite Eo1 in Hp1. unfold show_output, apply_limit, wm_enabled in Hp1.
-        pose proof (reach_inv _ Hr) as [_ Hen0]. destruct (Hen0 _ _ Lk) as [[Htf Hlim0] _]. rewrite Htf, Hlim0 in Hp1.
+        pose proof (reach_inv _ Hr) as [_ Hen0]. destruct (Hen0 _ _ (lookup_In _ _ _ Lk)) as [[Htf Hlim0] _]. rewrite Htf, Hlim0 in Hp1.
         apply Permutation_length. exact Hp1. }
       lia. }
     destruct nf2 as [|f r]; [reflexivity|]. exfalso.
     unfold show_frames in Sf2. rewrite Een1 in Sf2. cbn [n_q n_frames] in Sf2.
-    pose proof (reach_inv _ Hr) as [_ Hen0]. destruct (Hen0 _ _ Lk) as [[_ Hlim] _]. rewrite Hlim in Sf2.
+    pose proof (reach_inv _ Hr) as [_ Hen0]. destruct (Hen0 _ _ (lookup_In _ _ _ Lk)) as [[_ Hlim] _]. rewrite Hlim in Sf2.
     match type of Sf2 with (if valid_order ?b ?o then _ else _) = _ => destruct (valid_order b o) eqn:V; [|discriminate] end.
     inversion Sf2 as [Hfr].
     assert (Hf : f <> []).
@@ -810,6 +852,58 @@ Theorem remember_fresh_accepted : forall st name q ch,
 Proof.
   intros st name q ch H. cbn [step]. rewrite H.
   destruct (remember_frames q (st_layout st) ch); cbn [snd]; discriminate.
+Qed.
+
+(** ** A clock condition that keeps new events above every mark *)
+
+Lemma max_of_le : forall f l b, (forall e, In e l -> f e <= b) -> max_of f l <= b.
+Proof.
+  intros f l b H. induction l as [|x l IH]; cbn [max_of fold_right]; [lia|].
+  pose proof (H x (or_introl eq_refl)). assert (max_of f l <= b) by (apply IH; intros e He; apply H; right; exact He).
+  unfold max_of in *. lia.
+Qed.
+
+Lemma max_of_lt_all : forall f l b, 0 < b -> (forall e, In e l -> f e < b) -> max_of f l < b.
+Proof.
+  intros f l b Hb H. induction l as [|x l IH]; cbn [max_of fold_right]; [lia|].
+  pose proof (H x (or_introl eq_refl)). assert (max_of f l < b) by (apply IH; intros e He; apply H; right; exact He).
+  unfold max_of in *. lia.
+Qed.
+
+(** If every new event carries a second not below, and an id above, those of every event already there (one shard,
+    or a millisecond clock that advances between applied STOREs, and a wall clock that does not step back), no
+    new event is late for any remembered query. *)
+Theorem monotone_clock_not_late : forall st l,
+  Inv st -> zero_id l = false ->
+  (forall e, In e (content l) -> ~ In e (content (st_layout st)) ->
+     forall e0, In e0 (content (st_layout st)) -> e_ts e0 <= e_ts e /\ e_id e0 < e_id e) ->
+  some_late st l = false.
+Proof.
+  intros st l [Hl Hen] Hz Hmono. unfold some_late.
+  destruct (existsb _ (st_entries st)) eqn:E; [|reflexivity]. exfalso.
+  apply existsb_exists in E. destruct E as [[name en] [Hin Hlate]]. cbn [snd] in Hlate.
+  unfold late_for in Hlate. apply existsb_exists in Hlate. destruct Hlate as [e [He Hc]].
+  apply andb_true_iff in Hc. destruct Hc as [Hc Hmle]. apply andb_true_iff in Hc. destruct Hc as [Hnew _].
+  apply negb_true_iff in Hnew.
+  assert (Hn : ~ In e (content (st_layout st))) by (intro X; apply in_events_In in X; congruence).
+  assert (Hid : 0 < e_id e).
+  { unfold zero_id in Hz. destruct (e_id e =? 0) eqn:Z; [|lia]. exfalso.
+    assert (X : existsb (fun e => e_id e =? 0) (content l) = true) by (apply existsb_exists; exists e; auto). congruence. }
+  destruct (Hen name en Hin) as [_ Hp].
+  apply mle_spec in Hmle. unfold ekey in Hmle; cbn [fst snd] in Hmle.
+  destruct (n_frames en) as [|f0 r0] eqn:Ef.
+  - cbn in Hmle. lia.
+  - rewrite <- Ef in *. assert (Hne : n_frames en <> []) by (rewrite Ef; discriminate).
+    rewrite (frames_mark_last _ Hne) in Hmle. unfold frame_mark in Hmle; cbn [fst snd] in Hmle.
+    assert (Hrows : forall r, In r (last (n_frames en) []) -> In r (content (st_layout st))).
+    { intros r Hr. assert (Hc : In r (concat (n_frames en))).
+      { apply in_concat. exists (last (n_frames en) []). split; [apply last_In; exact Hne|exact Hr]. }
+      eapply Permutation_in in Hc; [|exact Hp]. apply filter_In in Hc. apply Hc. }
+    assert (H1 : max_of e_ts (last (n_frames en) []) <= e_ts e).
+    { apply max_of_le. intros r Hr. apply (Hmono e He Hn r (Hrows r Hr)). }
+    assert (H2 : max_of e_id (last (n_frames en) []) < e_id e).
+    { apply max_of_lt_all; [exact Hid|]. intros r Hr. apply (Hmono e He Hn r (Hrows r Hr)). }
+    lia.
 Qed.
 
 (** ** Witnesses: the full property is false of the model (and of the code) *)
@@ -868,6 +962,15 @@ Definition w_same_ms : list op :=
     OSetLayout [mkShard [ev 2 10 0 100] []; mkShard [ev 1 10 0 4196] []];
     OShow 1 [] ].
 
+(** … and without any clock anomaly in the lexicographic sense: the mark's two components are independent
+    maxima, (10, 200) here, a pair no stored row carries; the new event (10, 150) is above every stored row
+    ((9, 200) and (10, 100)) and still below the mark. *)
+Definition w_component_max : list op :=
+  [ OSetLayout [mkShard [ev 1 9 0 200; ev 2 10 0 100] []];
+    ORemember 1 q_all [(0, [])];
+    OSetLayout [mkShard [ev 1 9 0 200; ev 2 10 0 100; ev 3 10 0 150] []];
+    OShow 1 [] ].
+
 (** (4) LimitNotReapplied — LIMIT is applied when REMEMBER stores, never when SHOW answers. *)
 Definition q_lim1 : query := mkQuery None None None TCore true (Some 1).
 Definition w_limit : list op :=
@@ -916,6 +1019,8 @@ Proof. witness. Qed.
 Theorem show_eq_query_refuted_payload_hidden : witness_of PayloadTimeField w_payload_hidden.
 Proof. witness. Qed.
 Theorem show_eq_query_refuted_same_ms : witness_of EventNotAboveMark w_same_ms.
+Proof. witness. Qed.
+Theorem show_eq_query_refuted_component_max : witness_of EventNotAboveMark w_component_max.
 Proof. witness. Qed.
 Theorem show_eq_query_refuted_limit : witness_of LimitNotReapplied w_limit.
 Proof. witness. Qed.
